@@ -31,6 +31,8 @@ vars == <<l, F, D, R, nh, B, seen, got, early, flag, sentH, sentBy, fin>>
 
 M == INSTANCE OracleSvc
 
+\* names of predicates falsified by the i-th record of a list carry the index: "Name#i"
+Tag(S, i) == {x \o "#" \o ToString(i) : x \in S}
 Empty == [x \in {} |-> 0]
 Get(f, k, d) == IF k \in DOMAIN f THEN f[k] ELSE d
 Put(f, k, v) == (k :> v) @@ f
@@ -77,34 +79,38 @@ Flag2(e) == LET base == Drop(flag, GoneKeys(e)) IN
 
 \* ------------------------------------------------------------------ predicates on the observations
 BuildChecks(e, nh2) ==
-    UNION {LET b == NormB(BuiltOf(e)[i]) IN
+    UNION {LET b == NormB(BuiltOf(e)[i]) IN Tag(
            IF b.req \in DOMAIN R /\ b.h \in DOMAIN F
            THEN M!BuildFails(b, Rq(b.req), FactsAt(b.h))
                 \cup NameIf(\A s \in seen : M!Agree(s, Summary(b, Rq(b.req), FactsAt(b.h))), "Agreement")
                 \cup NameIf(\A j \in DOMAIN BuiltOf(e) : LET c == NormB(BuiltOf(e)[j]) IN
                                (c.req = b.req /\ c.h \in DOMAIN F) =>
                                    M!Agree(Summary(c, Rq(c.req), FactsAt(c.h)), Summary(b, Rq(b.req), FactsAt(b.h))), "Agreement")
-           ELSE {"BuildOfUnknown"} : i \in DOMAIN BuiltOf(e)}
+           ELSE {"BuildOfUnknown"}, i) : i \in DOMAIN BuiltOf(e)}
+
+\* the fee policy a transaction was built under is the one of the ledger that judges it
+SameFees(bh, hh) == bh \in DOMAIN F /\ hh \in DOMAIN F /\ F[bh].fpb = F[hh].fpb /\ F[bh].eff = F[hh].eff /\ F[bh].attr = F[hh].attr
+WithFees(s) == s @@ [samefees |-> SameFees(s.bh, s.h)]
 
 SentChecks(e) ==
-    UNION {LET s == SentOf(e)[i] IN
+    UNION {LET s == WithFees(SentOf(e)[i]) IN Tag(
            NameIf(M!SentIsBuilt(s), "SentIsBuilt")
            \cup (IF s.h \in DOMAIN F THEN NameIf(M!SentQuorum(s, FactsAt(s.h)), "SentQuorum") ELSE {})
            \cup NameIf(M!SentAccepted(s), "SentAccepted")
            \cup NameIf(M!UnknownRefused(s), "UnknownRefused")
-           \cup NameIf(Get(sentBy, <<s.node, s.req>>, {}) \subseteq {s.hash}, "SingleSend")
+           \cup NameIf(Get(sentBy, <<s.node, s.req>>, {}) \subseteq {s.hash}, "SingleSend"), i)
            : i \in DOMAIN SentOf(e)}
 
 \* quorum rule for every build a node holds, under the facts of that node's ledger
 QuorumChecks(e, b2, g2, f2, nh2) ==
     LET turned == {<<StOf(e)[i].node, StOf(e)[i].req>> : i \in {j \in DOMAIN StOf(e) : StOf(e)[j].sent}} IN
-    UNION {LET n == k[1] IN
+    UNION {LET n == k[1] IN {x \o "#" \o ToString(n) \o "." \o ToString(k[2]) : x \in
            IF n \in DOMAIN nh2 /\ nh2[n] \in DOMAIN F /\ k[2] \in DOMAIN R
            THEN NameIf(M!SendsWhenQuorum(n, b2[k], Get(g2, k, {}), FactsAt(nh2[n]), Get(f2, k, FALSE)), "SendsWhenQuorum")
                 \cup (IF k \in turned      \* judged where the flag turns: later designations do not undo a send
                       THEN NameIf(M!SendsOnlyWithQuorum(n, b2[k], Get(g2, k, {}), FactsAt(nh2[n]), TRUE), "SendsOnlyWithQuorum")
                       ELSE {})
-           ELSE {} : k \in DOMAIN b2}
+           ELSE {}} : k \in DOMAIN b2}
 
 SentBy2(e, base) ==
     LET ks == {<<SentOf(e)[i].node, SentOf(e)[i].req>> : i \in DOMAIN SentOf(e)} IN
@@ -132,15 +138,15 @@ EarlyAfterSig(e) ==
     IF k \notin DOMAIN B2(e) THEN Put(e1, k, Put(Get(e1, k, Empty), e.from, e.hash)) ELSE e1   \* junk ("") takes the slot too
 
 IncludedChecks(e, fin2) ==
-    UNION {LET i == e.included[x] IN
+    UNION {LET i == e.included[x] IN Tag(
            NameIf(M!FinishOnce(fin2[i.req], i.resp, i.cb), "FinishOnce")
            \cup NameIf(M!IncludedWasSent(i.shash, sentH \cup {SentOf(e)[j].hash : j \in DOMAIN SentOf(e)}), "IncludedWasSent")
            \cup NameIf(M!FinishedGone(i.req, ToSet(e.pend)), "FinishedGone")
-           \cup (IF i.req \in DOMAIN R THEN NameIf(M!FinishRuns(i, Rq(i.req)), "FinishRuns") ELSE {"ResponseToUnknown"})
+           \cup (IF i.req \in DOMAIN R THEN NameIf(M!FinishRuns(i, Rq(i.req)), "FinishRuns") ELSE {"ResponseToUnknown"}), x)
            : x \in DOMAIN e.included}
 RelayChecks(e) ==
-    UNION {LET s == e.relayed[x] IN
-           NameIf(M!SentAccepted(s), "RelayAccepted") \cup NameIf(M!UnknownRefused(s), "UnknownRefused")
+    UNION {LET s == WithFees(e.relayed[x]) IN
+           Tag(NameIf(M!SentAccepted(s), "RelayAccepted") \cup NameIf(M!UnknownRefused(s), "RelayUnknownRefused"), x)
            : x \in DOMAIN e.relayed}
 Fin2(e) == [r \in (DOMAIN fin) \cup {e.included[x].req : x \in DOMAIN e.included} |->
                Get(fin, r, 0) + Cardinality({x \in DOMAIN e.included : e.included[x].req = r})]
